@@ -4,11 +4,11 @@
 (* environments.                                                                *)
 EXTENDS MC_TpePols, Json
 VARIABLES coord, c
-EnvChoices == { <<TRUE, "u2", TRUE, TRUE, TRUE, TRUE, "u1", 3, "u1">>, <<FALSE, "none", FALSE, FALSE, FALSE, FALSE, "u2", 2, "u1">>,
-                <<TRUE, "u3", FALSE, TRUE, FALSE, FALSE, "u1", 5, "u1">>, <<FALSE, "u2", TRUE, FALSE, TRUE, TRUE, "u2", 1, "u2">>,
-                <<TRUE, "u2", FALSE, FALSE, TRUE, FALSE, "u2", 4, "u1">>, <<FALSE, "u3", TRUE, TRUE, FALSE, TRUE, "u1", 1, "u2">>,
-                <<TRUE, "none", TRUE, FALSE, FALSE, TRUE, "u2", 5, "u2">>, <<FALSE, "u2", FALSE, TRUE, TRUE, FALSE, "u1", 3, "u1">>,
-                <<TRUE, "u2", TRUE, TRUE, FALSE, TRUE, "u2", 1, "u1">>, <<TRUE, "u2", TRUE, FALSE, TRUE, TRUE, "u1", 2, "u2">> }
+EnvChoices == { <<TRUE, "u2", TRUE, TRUE, "g", TRUE, "u1", 3, "u1">>, <<FALSE, "none", FALSE, FALSE, "no", FALSE, "u2", 2, "u1">>,
+                <<TRUE, "u3", FALSE, TRUE, "no", FALSE, "u1", 5, "u1">>, <<FALSE, "u2", TRUE, FALSE, "g", TRUE, "u2", 1, "u2">>,
+                <<TRUE, "u2", FALSE, FALSE, "g", FALSE, "u2", 4, "u1">>, <<FALSE, "u3", TRUE, TRUE, "no", TRUE, "u1", 1, "u2">>,
+                <<TRUE, "none", TRUE, FALSE, "no", TRUE, "u2", 5, "u2">>, <<FALSE, "u2", FALSE, TRUE, "g", FALSE, "u1", 3, "u1">>,
+                <<TRUE, "u2", TRUE, TRUE, "no", TRUE, "u2", 1, "u1">>, <<TRUE, "u2", TRUE, FALSE, "g", TRUE, "u1", 2, "u2">> }
 Seconds == {<<WithId(TP[i], "q1", "permit")>> : i \in {8, 14, 20, 21}} \cup {<<WithId(TP[16], "q1", "permit"), WithId(TP[1], "q2", "forbid")>>}
 Coords == 1..8
 CasesOf(k) == {[pols |-> ps, pols2 |-> qs, envs |-> EnvChoices] : ps \in {x \in PolSets : (Len(x) + Len(x[1].conds[1][2])) % 8 = k - 1}, qs \in Seconds}
